@@ -12,6 +12,8 @@ func init() {
 			ruleSyncFields(c)
 			rulePublish(c)
 			rulePoolLifetime(c)
+			rulePublishAtomic(c)
+			ruleAppendTarget(c)
 		},
 	})
 }
